@@ -1202,6 +1202,11 @@ func (x *Placeholder) Set(val Native) error {
 	} else if buf.Len() > x.size {
 		return errors.New("Placeholder: replacement text too long")
 	}
+	// The text is written to the file as it was formatted here, without the
+	// encryption which the Writer applies to strings.
+	if x.pdf != nil && x.pdf.isEncrypted() && containsString(val) {
+		return errors.New("Placeholder.Set: string value in an encrypted file")
+	}
 	x.value = make([]byte, buf.Len())
 	copy(x.value, buf.Bytes())
 
@@ -1233,6 +1238,31 @@ func (x *Placeholder) Set(val Native) error {
 
 	x.pos = nil
 	return nil
+}
+
+// containsString reports whether obj is a string, or an array or dictionary
+// which holds one.  The nesting depth of obj must be bounded.
+func containsString(obj Object) bool {
+	if obj == nil {
+		return false
+	}
+	switch x := obj.AsPDF(0).(type) {
+	case String:
+		return true
+	case Array:
+		for _, elem := range x {
+			if containsString(elem) {
+				return true
+			}
+		}
+	case Dict:
+		for _, elem := range x {
+			if containsString(elem) {
+				return true
+			}
+		}
+	}
+	return false
 }
 
 // AsString formats a PDF object as a string, in the same way as the
